@@ -122,7 +122,12 @@ class Env(object):
         if ev is None:
             ev = self.objs["_triggers"][name] = core.SimEvent()
         if not ev.is_set():
+            had_waiters = bool(ev._waiters)
             ev.set()
+            if had_waiters:
+                # a client was waiting for exactly this moment: give it an even chance to run now,
+                # inside the window, whatever the scheduling strategy of the run
+                self.sim.yield_point("user-handoff")
 
     def await_(self, name, timeout=5.0):
         ev = self.objs.setdefault("_triggers", {}).get(name)
